@@ -83,3 +83,61 @@ pub fn h_iter_config() {
     crate::vcheck!(it.max_allowed_tag_size == lim && it.allowed_errors == 0, "set_max_allowable_tag_size stores exactly the given limit and touches nothing else");
     std::mem::forget(it);
 }
+
+
+fn blank_iter(input: &'static [u8]) -> TagIterator<&'static [u8], NoSpec> {
+    let mut mu: std::mem::MaybeUninit<TagIterator<&[u8], NoSpec>> = std::mem::MaybeUninit::zeroed();
+    let p = mu.as_mut_ptr();
+    unsafe {
+        std::ptr::addr_of_mut!((*p).source).write(input);
+        std::ptr::addr_of_mut!((*p).allowed_errors).write(0);
+        std::ptr::addr_of_mut!((*p).max_allowed_tag_size).write(None);
+        std::ptr::addr_of_mut!((*p).buffer).write(Vec::new().into_boxed_slice());
+        std::ptr::addr_of_mut!((*p).buffered_byte_length).write(0);
+        std::ptr::addr_of_mut!((*p).buffer_offset).write(None);
+        std::ptr::addr_of_mut!((*p).internal_buffer_position).write(0);
+        std::ptr::addr_of_mut!((*p).tag_stack).write(Vec::new());
+        std::ptr::addr_of_mut!((*p).emission_queue).write(VecDeque::new());
+        std::ptr::addr_of_mut!((*p).last_emitted_tag_offset).write(0);
+        std::ptr::addr_of_mut!((*p).has_determined_doc_path).write(false);
+        std::ptr::addr_of_mut!((*p).emit_master_end_when_eof).write(true);
+        mu.assume_init()
+    }
+}
+
+/// an open-master entry, written field by field into a zeroed value (robust against fields added to ProcessingTag later)
+fn mk_pt(size: EBMLSize, data_start: usize) -> ProcessingTag<NoSpec> {
+    let mut mu: std::mem::MaybeUninit<ProcessingTag<NoSpec>> = std::mem::MaybeUninit::zeroed();
+    let p = mu.as_mut_ptr();
+    unsafe {
+        std::ptr::addr_of_mut!((*p).tag).write(NoSpec);
+        std::ptr::addr_of_mut!((*p).size).write(size);
+        std::ptr::addr_of_mut!((*p).tag_start).write(0);
+        std::ptr::addr_of_mut!((*p).data_start).write(data_start);
+        mu.assume_init()
+    }
+}
+
+//@K name=k_is_invalid_tag_size unwind=5 props=C05,C06,C13,C14
+pub fn h_is_invalid_tag_size() {
+    // the size-containment test, for every cursor position (before, inside and BEYOND the declared end of an open master -
+    // try_recover scans past such ends), every declared size < 2^56 and up to two open masters, known or unknown
+    let mut it = blank_iter(&[]);
+    it.tag_stack = Vec::with_capacity(2);   // no symbolic reallocation
+    let n = src::u8_();
+    src::assume(n <= 2);
+    let bound = 1usize << 57;
+    let (d0, s0, k0) = (src::usize_(), src::usize_(), src::bool_());
+    let (d1, s1, k1) = (src::usize_(), src::usize_(), src::bool_());
+    let (off, pos, size) = (src::usize_(), src::usize_(), src::usize_());
+    src::assume(d0 < bound && s0 < bound && d1 < bound && s1 < bound && off < bound && pos < bound && size < bound);
+    if n > 0 { it.tag_stack.push(mk_pt(if k0 { Known(s0) } else { EBMLSize::Unknown }, d0)); }
+    if n > 1 { it.tag_stack.push(mk_pt(if k1 { Known(s1) } else { EBMLSize::Unknown }, d1)); }
+    it.buffer_offset = Some(off);
+    it.internal_buffer_position = pos;
+    let r = it.is_invalid_tag_size(size);
+    let cur = off + pos;
+    let want = (n > 0 && k0 && d0 + s0 < cur + size) || (n > 1 && k1 && d1 + s1 < cur + size);
+    crate::vcheck!(r == want, "is_invalid_tag_size(size) = some open known-size master ends before cursor + size; no overflow or panic wherever the cursor stands (also beyond a master's declared end)");
+    std::mem::forget(it);
+}
